@@ -412,12 +412,10 @@ def dom_cases(ctx, n):
                     if typo and not v["ok"]:
                         ctx.fail(Failure("known-shape", f"F5: accepted DOM with name {typo[0]!r} is not well-formed", {"dom": tree},
                                          extra={"class": "F5", "oracle": "not-wellformed", "witness": typo[0], "compact": text}))
-                    elif xel and v["ok"] and v["bound"] and not v["declsOk"] and not reserved_uri(tree):
-                        ctx.fail(Failure("known-shape", f"F3x: accepted DOM with element {xel[0]!r}", {"dom": tree},
-                                         extra={"class": "F3x", "oracle": "bad-namespace-declaration", "witness": xel[0], "compact": text}))
-                    elif reserved_uri(tree) and v["ok"] and v["bound"] and not v["declsOk"] and not xel:
-                        ctx.fail(Failure("known-shape", "F2b: accepted DOM binding a prefix to a reserved namespace name", {"dom": tree},
-                                         extra={"class": "F2b", "oracle": "bad-namespace-declaration", "witness": "reserved uri", "compact": text}))
+                    elif (xel or reserved_uri(tree)) and v["ok"] and v["bound"] and not v["declsOk"]:
+                        cls = "F3x" if xel else "F2b"
+                        ctx.fail(Failure("known-shape", f"{cls}: accepted DOM with an illegal use of a reserved namespace name/prefix", {"dom": tree},
+                                         extra={"class": cls, "oracle": "bad-namespace-declaration", "witness": (xel or ["reserved uri"])[0], "compact": text}))
                     else:
                         ctx.fail(Failure("validated-dom-not-wellformed", "validate_xml_document accepts a DOM whose serialisation is not "
                                          "well-formed / namespace-valid", {"dom": tree}, extra={"text": text, "pretty": pretty}))
